@@ -491,6 +491,15 @@ def r_callbacks(repo, rep, R):
                 info[kind] = s
     if set(info) != {'binary', 'unary'}:
         raise AnalysisError('%s: grammar callbacks not found in run()' % REL)
+    # who numbers the results: the callbacks (each returns (cat_id, position, result)) or scaffold, which then walks
+    # enumerate(callback(x, y)) over (cat_id, result) pairs -- positions from 0 in the order the grammar returned them
+    sc_ = mod.get('scaffold')
+    sps_ = [a.arg for a in sc_.args.args]
+    numbered_by_scaffold = False
+    for st_, out_ in SymExec(sc_).run():
+        for e_ in st_.events:
+            if e_[0] == 'loop-enter' and e_[1][0] == 'call' and e_[1][1] == N('enumerate') and e_[1][2] and e_[1][2][0] == ('call', N(sps_[0]), (N(sps_[1]), N(sps_[2])), ()):
+                numbered_by_scaffold = True
     for kind, fn in info.items():
         w = '%s:%s run.%s' % (REL, fn.lineno, fn.name)
         ids = [a.arg for a in fn.args.args]
@@ -504,17 +513,26 @@ def r_callbacks(repo, rep, R):
             nargs = 2 if kind == 'binary' else 1
             want_args = tuple(S(N(_TABLE[0]), N(i)) for i in ids[:nargs])
             gram = ('call', N(p_bin if kind == 'binary' else p_un), want_args, ())
-            ok = (it == ('call', N('enumerate'), (gram,), ()) or it == ('call', N('enumerate'), (gram, C(0)), ())
-                  or it == ('call', N('enumerate'), (gram,), (('start', C(0)),))) and not filt
             detail = 'iterates %s%s' % (show(it), ' filtered by %s' % [show(c) for c in filt] if filt else '')
-            if ok:
-                elt = r[1]
-                is_elem = lambda t: t[0] == 'elem' and t[1] == it
-                ok = (elt[0] == 'tuple' and len(elt[1]) == 3
-                      and elt[1][1][0] == 'unpack' and is_elem(elt[1][1][1]) and elt[1][1][2] == 0
-                      and elt[1][2][0] == 'unpack' and is_elem(elt[1][2][1]) and elt[1][2][2] == 1
-                      and elt[1][0] == ('call', N(_ADDER[0]), (A(elt[1][2], 'cat'),), ()))
-                detail += '; each element is %s' % show(elt)
+            if numbered_by_scaffold:
+                ok = it == gram and not filt
+                if ok:
+                    elt = r[1]
+                    is_elem = lambda t: t[0] == 'elem' and t[1] == it
+                    ok = (elt[0] == 'tuple' and len(elt[1]) == 2 and is_elem(elt[1][1])
+                          and elt[1][0] == ('call', N(_ADDER[0]), (A(elt[1][1], 'cat'),), ()))
+                    detail += '; each element is %s (positions are given by scaffold)' % show(elt)
+            else:
+                ok = (it == ('call', N('enumerate'), (gram,), ()) or it == ('call', N('enumerate'), (gram, C(0)), ())
+                      or it == ('call', N('enumerate'), (gram,), (('start', C(0)),))) and not filt
+                if ok:
+                    elt = r[1]
+                    is_elem = lambda t: t[0] == 'elem' and t[1] == it
+                    ok = (elt[0] == 'tuple' and len(elt[1]) == 3
+                          and elt[1][1][0] == 'unpack' and is_elem(elt[1][1][1]) and elt[1][1][2] == 0
+                          and elt[1][2][0] == 'unpack' and is_elem(elt[1][2][1]) and elt[1][2][2] == 1
+                          and elt[1][0] == ('call', N(_ADDER[0]), (A(elt[1][2], 'cat'),), ()))
+                    detail += '; each element is %s' % show(elt)
         rep.check(ok, R, w, 'run:%s-callback:positions' % kind,
                   '%s callback returns (cat_id, position, result) for every grammar result, positions from 0 (%s)' % (kind, detail),
                   '%s callback does not enumerate every result from 0: %s' % (kind, detail))
@@ -529,11 +547,17 @@ def r_callbacks(repo, rep, R):
         st = paths[0]
         loop = [e for e in st.events if e[0] == 'loop-enter'][0]
         it = loop[1]
-        ok = it == ('call', N(ps[0]), (N(ps[1]), N(ps[2])), ())
+        call_ = ('call', N(ps[0]), (N(ps[1]), N(ps[2])), ())
         elem = ('elem', it, loop[2].lineno)
         sets = {e[2]: e[3] for e in st.events if e[0] == 'setattr'}
-        res = ('unpack', elem, 2)
-        want = {'cat_id': ('unpack', elem, 0), 'rule_id': ('unpack', elem, 1), 'head_is_left': A(res, 'head_is_left'),
+        if numbered_by_scaffold:
+            ok = it in (('call', N('enumerate'), (call_,), ()), ('call', N('enumerate'), (call_, C(0)), ()), ('call', N('enumerate'), (call_,), (('start', C(0)),)))
+            pair = ('unpack', elem, 1)
+            res, cat_t, pos_t = ('unpack', pair, 1), ('unpack', pair, 0), ('unpack', elem, 0)
+        else:
+            ok = it == call_
+            res, cat_t, pos_t = ('unpack', elem, 2), ('unpack', elem, 0), ('unpack', elem, 1)
+        want = {'cat_id': cat_t, 'rule_id': pos_t, 'head_is_left': A(res, 'head_is_left'),
                 'op_string': ('call', A(A(res, 'op_string'), 'encode'), (C('utf-8'),), ()),
                 'op_symbol': ('call', A(A(res, 'op_symbol'), 'encode'), (C('utf-8'),), ())}
         ok = ok and sets == want
